@@ -45,6 +45,8 @@ def val(v):
         return {100: 'a', 101: 'x', 102: 'y', 103: 'k', 104: 'z', 110: '1', 111: LONG}.get(c, 's%d' % c)
     if t == 'none':
         return None
+    if t == 'tup':
+        return (1, 2)
     raise ValueError(v)
 
 
@@ -59,6 +61,8 @@ def unval(x):
         return {'t': 'str', 'v': {'a': 100, 'x': 101, 'y': 102, 'k': 103, 'z': 104, '1': 110, LONG: 111}.get(x, 199)}
     if x is None:
         return {'t': 'none', 'v': 0}
+    if type(x) is tuple and x == (1, 2) and all(type(i) is int for i in x):
+        return {'t': 'tup', 'v': 130}
     if type(x).__name__ == 'Tagged':
         return {'t': 'obj', 'v': 120}
     return {'t': 'other', 'v': 0}
